@@ -1209,6 +1209,15 @@ class Executor:
                     ii = self.impl_info(name)
                     if ii and ii[0] == ty and ii[1] == tr:
                         cands.extend(lst)
+            if not cands or tr == "From":
+                # the impl may be written for a type alias (impl Pairable for ParameterFormals = Located<ParameterFormalsBody>)
+                for name, lst in self.fns.items():
+                    if name.endswith("::" + meth) and "<impl at" in name and "{closure" not in name:
+                        ii = self.impl_info(name)
+                        if ii and ii[1] == tr:
+                            alias = TYPE_ALIASES.get(ii[0])
+                            if alias and _norm_ty(alias) == _norm_ty(ty_full):
+                                cands.extend(lst)
             if not cands and tr == "From" and meth == "from":
                 # impls generated by derive macros (thiserror's #[from]): resolve by signature
                 ga = generic_args(tr_full)
@@ -1219,10 +1228,21 @@ class Executor:
                             if len(fn.params) == 1 and _norm_ty(fn.params[0][1]) == want and base_ty(fn.ret) == ty:
                                 cands.append(fn)
             if len(cands) > 1 and tr == "From":
-                # thiserror/From impls: disambiguate by the argument type
+                # several From impls for one type: disambiguate by the argument type (a blanket `impl<T> From<T> for X<T>` takes
+                # exactly X's own parameter; parameter types may be written through aliases)
                 ga = generic_args(tr_full)
                 want = base_ty(ga[0]) if ga else None
-                cands = [f for f in cands if f.params and base_ty(f.params[0][1]) == want]
+                own = generic_args(ty_full)
+
+                def takes(fn):
+                    if not fn.params:
+                        return False
+                    pt = fn.params[0][1].strip()
+                    if re.match(r"^[A-Z]$", pt):
+                        return bool(own) and ga and _norm_ty(own[0]) == _norm_ty(ga[0])
+                    pt = TYPE_ALIASES.get(base_ty(pt), pt)
+                    return base_ty(pt) == want
+                cands = [f for f in cands if takes(f)]
             if len(cands) > 1:
                 # several impls of the same trait for instantiations of one generic type: match the full self type
                 ga = [x for x in cands if _norm_ty(self.impl_info(x.name)[3]) == _norm_ty(ty_full)]
@@ -1489,6 +1509,16 @@ class Executor:
                     binds = {k: v for k, v in binds.items() if v not in inames and v != k}
                     if binds:
                         self.pending_generics = dict(binds)
+            if "<impl at" not in f.name:
+                # a trait's default method: `Self` is the type the method is called on
+                mq2 = re.match(r"^<(.+) as [^>]+?(?:<.*>)?>::\w+", callee.strip(), re.S)
+                if mq2:
+                    from .models import self_type
+                    st = self_type(callee)
+                    if st and st != "Self":
+                        pg = dict(getattr(self, "pending_generics", None) or {})
+                        pg["Self"] = st
+                        self.pending_generics = pg
             gnames = self.fn_generics(f)
             if gnames:
                 mt = re.search(r"::<([^<>]*(?:<[^<>]*>[^<>]*)*)>$", callee.strip())
@@ -1713,7 +1743,7 @@ _RE_FALSE = re.compile(r"^false(?:Edge|Unwind) -> \[real: (bb\d+),.*\]$")
 _RE_SWITCH = re.compile(r"^switchInt\((.+)\) -> \[(.+)\]$")
 _RE_ASSERT = re.compile(r"^assert\((!?)(.+?), \"(.*?)\".*\) -> \[success: (bb\d+), unwind.*\]$", re.S)
 _RE_CALL = re.compile(r"^(.+?) = (.+) -> \[return: (bb\d+), unwind.*\]$", re.S)
-_RE_CALL_DIVERGE = re.compile(r"^(.+?) = (.+) -> unwind.*$", re.S)
+_RE_CALL_DIVERGE = re.compile(r"^(.+?) = (.+) -> (?:unwind.*|bb\d+)$", re.S)     # a call that never returns (its only edge is the unwind edge)
 
 
 def _top_level_brace(rv):
